@@ -35,15 +35,18 @@ def cwd(path):
 
 
 @contextlib.contextmanager
-def temp_tree(files: dict | None = None):
-    """files: {relative path: str|bytes}"""
+def temp_tree(files: dict | None = None, under: str | None = None):
+    """files: {relative path: str|bytes}. under: the tree root is <tmp>/<under> (e.g. '.ci/ws': a checkout below a hidden
+    directory such as ~/.cache or ~/.local - hidden-ness is about components BELOW the root, not above it)"""
     d = tempfile.mkdtemp(prefix="mc-")
     # resolve: macOS-style symlinked tmp dirs would otherwise confuse relative_to
     d = os.path.realpath(d)
+    root = os.path.join(d, under) if under else d
     try:
+        os.makedirs(root, exist_ok=True)
         if files:
-            write_files(d, files)
-        yield Path(d)
+            write_files(root, files)
+        yield Path(root)
     finally:
         shutil.rmtree(d, ignore_errors=True)
 
